@@ -971,7 +971,7 @@ struct Gen
 
 	void run()
 	{
-		const bool scripts = mode == "c02" || mode == "c08" || mode == "c09" || mode == "c19";
+		const bool scripts = mode == "c02" || mode == "c08" || mode == "c09" || mode == "c19" || mode == "c20";   // (c20: what a callback adds or removes during an invocation must not depend on the policies either)
 		const bool pool = mode == "c10" || mode == "c08" || mode == "c09" || mode == "c19" || mode == "c20";
 		const bool warps = mode == "c19" || mode == "c10";
 		// variant: which class / policies
